@@ -265,10 +265,10 @@ class RunningMax(agg_base.AggregateFn):
     return hash('RunningMax')
 
 
-def failing_range(n, fail_at=0):
-  """Generator 0..n-1 that raises (non-skippable) instead of producing its fail_at-th element; returns 'done'."""
+def failing_range(n, fail_at=0, ret='done'):
+  """Generator 0..n-1 that raises (non-skippable) instead of producing its fail_at-th element; returns `ret`."""
   for i in range(n):
     if fail_at and i == fail_at - 1:
       raise RuntimeError(f'generator fails at its element {fail_at}')
     yield i
-  return 'done'
+  return ret
